@@ -1593,26 +1593,40 @@ fn c13_case(mi: usize, m0: &Message, atoms: &[Atom], accounts: &Vec<Account>, no
             });
             let (v, _) = refm::rverdict(&req, &node.cfg, b.now_ns, &mut rp);
             drop(rp);
-            let shared = Arc::new(Mutex::new(libi::Shared::new(accounts.clone(), shared_level)));
-            shared.lock().unwrap().scripts.push(b.script.clone());
-            let mut tt = Tape::replay(vec![]);
-            let rep = libi::run_tasks(
-                &shared,
-                vec![vec![libi::Job {
-                    req,
-                    node: node.clone(),
-                    now_ns: b.now_ns,
-                    val: 0,
-                }]],
-                libi::ExecPolicy {
-                    spurious_one_in: 0,
-                    cancel_one_in: 0,
-                    step_cap: 200,
-                },
-                &mut tt,
-            );
+            // each of the two requests is validated on a thread of its own (fixed hash keys), so
+            // that anything a library might carry from one validation to the next on a thread
+            // cannot make the pair differ: this check is about the order of the rules only
+            let (acc2, node2, script2, now2) = (accounts.clone(), node.clone(), b.script.clone(), b.now_ns);
+            let r = hashseed::incarnation(0xC13, move || {
+                let shared = Arc::new(Mutex::new(libi::Shared::new(acc2, shared_level)));
+                shared.lock().unwrap().scripts.push(script2);
+                let mut tt = Tape::replay(vec![]);
+                let rep = libi::run_tasks(
+                    &shared,
+                    vec![vec![libi::Job {
+                        req,
+                        node: node2,
+                        now_ns: now2,
+                        val: 0,
+                    }]],
+                    libi::ExecPolicy {
+                        spurious_one_in: 0,
+                        cancel_one_in: 0,
+                        step_cap: 200,
+                    },
+                    &mut tt,
+                );
+                let ev = std::mem::take(&mut shared.lock().unwrap().events);
+                (rep, ev)
+            });
+            let (rep, ev) = match r {
+                Ok(x) => x,
+                Err(_) => {
+                    out.violate("C08", "no-panic", "validation thread panicked outside the guarded seams".into());
+                    return None;
+                }
+            };
             out.deliveries += 1;
-            let ev = std::mem::take(&mut shared.lock().unwrap().events);
             for (_, msg) in &rep.panics {
                 out.violate("C08", "no-panic", format!("validation panicked: {}", msg));
             }
@@ -1834,6 +1848,7 @@ pub fn registry() -> Vec<Profile> {
             stubs: STUBS_COMMON,
             assumptions: ASSUME_COMMON,
             sweep: Some(sweep_c13),
+            pinned: None,
         },
         Profile {
             id: "C08",
@@ -1847,6 +1862,7 @@ pub fn registry() -> Vec<Profile> {
             stubs: STUBS_COMMON,
             assumptions: &["allocation failure is not injected (Rust aborts on it by design; no property asks otherwise)", "unescape_uri_encoding is only called on well-formed input (documented as panicking otherwise)", "sampling, not enumeration"],
             sweep: Some(sweep_c08),
+            pinned: None,
         },
         Profile {
             id: "C17",
@@ -1860,6 +1876,7 @@ pub fn registry() -> Vec<Profile> {
             stubs: STUBS_COMMON,
             assumptions: ASSUME_COMMON,
             sweep: None,
+            pinned: None,
         },
         Profile {
             id: "C18",
@@ -1873,6 +1890,7 @@ pub fn registry() -> Vec<Profile> {
             stubs: STUBS_COMMON,
             assumptions: &["preemption in the native thread engine happens only at seams (log records, provider calls); code between two seams runs atomically — finer grain is the Miri tier's job", "the error message text is not part of the outcome (DESIGN §4 C18)", "sampling, not enumeration"],
             sweep: None,
+            pinned: Some(crate::sweeps::pinned_c18),
         },
         Profile {
             id: "C19",
@@ -1886,6 +1904,7 @@ pub fn registry() -> Vec<Profile> {
             stubs: STUBS_COMMON,
             assumptions: ASSUME_COMMON,
             sweep: Some(sweep_c19),
+            pinned: None,
         },
     ]
 }
